@@ -288,7 +288,7 @@ class Check:
                     self.failures.append(Failure("correspondence", f"op {op}: implementation and model disagree",
                                                  f"impl={i[:600]}\nmodel={m[:600]}\nspec={s[:600]}", case=c))
             elif spec_bad:
-                k = [k for k in self.known if k["signature"] == g]
+                k = [k for k in self.known if k.get("signature") == g]
                 if g != "-" and k:
                     self.known_hits.setdefault(k[0]["id"], c)
                 else:
